@@ -18,6 +18,7 @@ from refsem import circuits as RC
 
 from graphiq.circuit import ops as gops
 import graphiq.backends.density_matrix.functions as dmf
+import graphiq.noise.noise_models as nm
 from bounded.C01 import build_circuit, compile_traced, snapshot, mismatch
 
 S = Suite("C20")
@@ -254,6 +255,182 @@ def backend_case(inp):
     return None
 
 
+# ------------------------------------------------------------------ construction variants, repeated use, argument frames
+NOISE_KINDS = ("default", "nonoise", "list", "single_after", "single_before", "list_one_real")
+
+
+def _wrapper(w, rt, r, kind):
+    """the same wrapper built in the ways the constructor accepts its noise argument; returns (wrapper, noise objects by listed position or
+    None, the single noise object or None).  With noise simulation off (the compilers' default) every variant denotes the plain product."""
+    cls = [CLS[g] for g in w]
+    if kind == "default":
+        return gops.OneQubitGateWrapper(cls, register=r, reg_type=rt), None, None
+    if kind == "nonoise":
+        return gops.OneQubitGateWrapper(cls, register=r, reg_type=rt, noise=nm.NoNoise()), None, None
+    if kind == "list":
+        ns = [nm.NoNoise() for _ in w]
+        return gops.OneQubitGateWrapper(cls, register=r, reg_type=rt, noise=ns), ns, None
+    if kind == "list_one_real":
+        ns = [nm.NoNoise() for _ in w]
+        ns[len(w) // 2] = nm.PauliError("X")
+        return gops.OneQubitGateWrapper(cls, register=r, reg_type=rt, noise=ns), ns, None
+    one = nm.PauliError("X" if kind == "single_after" else "Z")
+    one.noise_parameters["After gate"] = kind == "single_after"
+    return gops.OneQubitGateWrapper(cls, register=r, reg_type=rt, noise=one), None, one
+
+
+@S.item("OneQubitGateWrapper.unwrap.noise_constructions", site="graphiq.circuit.ops:OneQubitGateWrapper.__init__, unwrap",
+        bound="all 24 lists + 7 non-canonical words (none of the multi-gate words is a palindrome) x register type e/p x 6 ways of giving the noise argument "
+              "(default, NoNoise(), list of NoNoise, one noise object applied after / before the gate, list with one real noise object); unwrap() called twice",
+        exhaustive=True,
+        clause="a wrapped gate list denotes the matrix product of the list, i.e. the last listed gate acts first - however the wrapper's noise is given")
+def unwrap_noise_case(inp):
+    w, rt, kind = inp
+    op, ns, one = _wrapper(w, rt, 1, kind)
+    want = list(reversed(w))
+    for k in (1, 2):
+        seq = op.unwrap()
+        # a single noise object may be carried by one extra Identity gate (how the noise is placed is C13's business)
+        carriers = [g for g in seq if one is not None and g.noise is one and type(g).__name__ == "Identity"]
+        gates = [g for g in seq if g is not carriers[0]] if (len(seq) == len(w) + 1 and len(carriers) >= 1) else list(seq)
+        got = [NAME.get(type(g).__name__) for g in gates]
+        if got != want:
+            return f"unwrap #{k} ({kind}) of {w} applies {got}, expected {want} (last listed first)"
+        if any(g.register != 1 or g.reg_type != rt for g in seq):
+            return f"unwrap #{k} ({kind}): a gate sits on another register"
+        if ns is not None:
+            for j, g in enumerate(gates):  # gate applied j-th is the one listed at position len-1-j
+                nj = ns[len(w) - 1 - j]
+                if not (type(g.noise) is type(nj) and g.noise.noise_parameters == nj.noise_parameters):
+                    return f"unwrap #{k} ({kind}) of {w}: the gate listed at position {len(w) - 1 - j} does not carry the noise given for that position"
+        prod = R.I2
+        for g in seq:  # application order: first applied is the right-most factor
+            prod = R.GATES1[NAME[type(g).__name__]] @ prod
+        if not np.allclose(prod, R.wrapper_matrix(w)):
+            return f"unwrap #{k} ({kind}) of {w}: product of the unwrapped gates is not the matrix product of the list"
+    if [NAME[g.__name__] for g in op.operations] != list(w):
+        return "unwrap changed the wrapper's operation list"
+    return None
+
+
+@S.item("wrapper.same_unitary_noise_constructions", site="graphiq.backends.compiler_base:CompilerBase.compile ; graphiq.circuit.ops:OneQubitGateWrapper.unwrap",
+        bound="all 24 library lists + 7 non-canonical words x wrapper on e0 or p0 of a (1 emitter, 1 photon) circuit x input |+i> or a Bell pair x the 5 "
+              "non-default ways of giving the noise argument x {stabilizer, dm}, noise simulation off (compilers' default); the SAME circuit object is compiled twice "
+              "by the SAME compiler object", exhaustive=True,
+        clause="a wrapped gate list denotes the same unitary - the matrix product of the list - in both backends, however the wrapper was built and on repeated compilation")
+def backend_noise_case(inp):
+    from bounded.C01 import COMPILERS
+    from graphiq.circuit.circuit_dag import CircuitDAG
+
+    w, rt, prep, kind = inp
+    other = ("p", 0) if rt == "e" else ("e", 0)
+    ops = [["g", "H", rt, 0], ["cx", rt, 0, other[0], other[1]]] if prep == "bell" else [["g", g, rt, 0] for g in PREPS[prep]]
+    spec = {"ne": 1, "np": 1, "nc": 0, "ops": ops + [["w", list(w), rt, 0]]}
+    v = R.run_ops(2, RC.abstract_ops(spec))[0]
+    for backend in ("stabilizer", "dm"):
+        circuit, _ = build_circuit({"ne": 1, "np": 1, "nc": 0, "ops": ops})
+        circuit.add(_wrapper(w, rt, 0, kind)[0])
+        comp = COMPILERS[backend]()
+        comp.measurement_determinism = 1
+        for k in (1, 2):
+            st = comp.compile(circuit)
+            m = mismatch(backend, snapshot(st.rep_data), v, 2)
+            if m:
+                return f"[{backend}] compilation #{k}, wrapper {w} on {rt}0 (noise given as {kind}), input {prep}: " + m
+    return None
+
+
+@S.item("simplify_local_clifford.repeat_and_frames", site="graphiq.circuit.ops:simplify_local_clifford, find_local_clifford_by_matrix, one_qubit_cliffords, local_clifford_composition",
+        bound="all 1554 words over {I,H,P,X,Y,Z} of length 1..4 (batches of 32): simplify twice on the SAME list object (list unchanged, same answer), simplify the "
+              "answer again (a member simplifies to itself), corrupt the returned lists and the lists of one_qubit_cliffords() / local_clifford_composition() in place, "
+              "simplify again (same answer; enumeration still the 24 members)", exhaustive=True,
+        clause="simplifying any product of elementary gates returns a member equal to that product up to global phase - on every call, without modifying the argument")
+def simplify_repeat_case(inp):
+    for w in inp:
+        cls = [CLS[g] for g in w]
+        keep = list(cls)
+        want = R.wrapper_matrix(w)
+        out1 = gops.simplify_local_clifford(cls)
+        if cls != keep:
+            return f"simplify({w}) modified its argument list"
+        if not RC.equal_up_to_phase(R.wrapper_matrix(names_of(out1)), want):
+            return f"simplify({w}) = {names_of(out1)} != product up to global phase"
+        first = list(out1)
+        out2 = gops.simplify_local_clifford(cls)
+        if list(out2) != first:
+            return f"simplify({w}) gave {names_of(first)} and then {names_of(out2)} for the same list"
+        out3 = gops.simplify_local_clifford(list(first))
+        if list(out3) != first:
+            return f"the member {names_of(first)} simplifies to {names_of(out3)}, not to itself"
+        # a caller may do what it likes with lists it was handed
+        for l in (out1, out2, out3):
+            if l is not cls:
+                l.append(gops.Hadamard)
+        for l in gops.one_qubit_cliffords():
+            l.append(gops.Phase)
+        a, b = gops.local_clifford_composition()
+        for l in a + b:
+            l.insert(0, gops.SigmaY)
+        out4 = gops.simplify_local_clifford(cls)
+        if list(out4) != first:
+            return f"after the caller changed lists it had been handed, simplify({w}) = {names_of(out4)} instead of {names_of(first)}"
+    L = library_lists()
+    idx = {group_index(R.wrapper_matrix(names_of(l))) for l in L}
+    if len(L) != 24 or len(idx) != 24 or None in idx:
+        return "after the caller changed lists it had been handed, one_qubit_cliffords() is no longer the 24 Clifford gates"
+    return None
+
+
+_DTYPES = {"complex": complex, "float": float, "int": int}
+
+
+@S.item("find_local_clifford_by_matrix.argument_frames", site="graphiq.circuit.ops:find_local_clifford_by_matrix ; graphiq.backends.density_matrix.functions:check_equivalent_unitaries",
+        bound="24 members x 4 phases as complex128 arrays in C and Fortran order; the members with real entries also as float64 (x -1) and, when integer, as int64 arrays; "
+              "12 non-Clifford matrices: lookup twice with the SAME array object: array bit-for-bit unchanged, same (right) answer / ValueError both times; "
+              "check_equivalent_unitaries(A, member) leaves both arguments unchanged", exhaustive=True,
+        clause="lookup by matrix: returns a member equal to the matrix up to global phase, a non-Clifford matrix is rejected - without modifying the matrix, on repeated use, for every dtype")
+def lookup_frames_case(inp):
+    kind, i, k, dt, order = inp
+    if kind == "member":
+        M = np.exp(1j * np.pi * k / 2) * R.wrapper_matrix(RC.WORDS24[i])
+        clifford = True
+    else:
+        M, clifford = _test_matrix(["rot", i, k % 3, 0.3 + 0.2 * k])
+    if dt != "complex":
+        if not np.allclose(M.imag, 0) or (dt == "int" and not np.allclose(M.real, np.round(M.real))):
+            return None
+        M = np.round(M.real) if dt == "int" else M.real
+    M = np.array(M, dtype=_DTYPES[dt], order=order)
+    f0 = (M.dtype.str, M.shape, M.tobytes(), M.flags["C_CONTIGUOUS"])
+    L = library_lists()
+    res = []
+    for rep in (1, 2):
+        try:
+            out = gops.find_local_clifford_by_matrix(M)
+        except ValueError:
+            out = None
+        if (M.dtype.str, M.shape, M.tobytes(), M.flags["C_CONTIGUOUS"]) != f0:
+            return f"lookup #{rep} modified its matrix argument ({dt}, order {order})"
+        if clifford:
+            if out is None:
+                return f"lookup #{rep}: a Clifford matrix given as {dt} array was rejected"
+            if list(out) not in L or not RC.equal_up_to_phase(R.wrapper_matrix(names_of(out)), np.array(M, dtype=complex)):
+                return f"lookup #{rep} ({dt}): result {names_of(out)} is not the member equal to the matrix up to global phase"
+        elif out is not None:
+            return f"lookup #{rep}: non-Clifford matrix accepted as {names_of(out)}"
+        res.append(None if out is None else list(out))
+    if res[0] != res[1]:
+        return "two lookups of the same array gave different answers"
+    B = gops.local_clifford_to_matrix_map(L[i])
+    fb = B.tobytes()
+    got = bool(dmf.check_equivalent_unitaries(M, B))
+    if (M.dtype.str, M.shape, M.tobytes(), M.flags["C_CONTIGUOUS"]) != f0 or B.tobytes() != fb:
+        return "check_equivalent_unitaries modified an argument"
+    if got != RC.equal_up_to_phase(np.array(M, dtype=complex), B, 1e-7):
+        return f"check_equivalent_unitaries({dt} matrix, member) = {got}"
+    return None
+
+
 def library_words():
     return [names_of(l) for l in library_lists()]
 
@@ -292,4 +469,11 @@ def run(tier, seed):
     allw = lw + RC.EXTRA_WORDS
     S.map("OneQubitGateWrapper.unwrap.reversed", [[w, rt, r] for w in allw for rt in ("e", "p") for r in (0, 1)])
     S.map("wrapper.same_unitary_in_both_backends", [[w, rt, prep] for w in allw for rt in ("e", "p") for prep in ("0", "+", "+i", "bell")])
+    S.map("OneQubitGateWrapper.unwrap.noise_constructions", [[w, rt, kd] for w in allw for rt in ("e", "p") for kd in NOISE_KINDS])
+    S.map("wrapper.same_unitary_noise_constructions", [[w, rt, prep, kd] for w in allw for rt in ("e", "p") for prep in ("+i", "bell") for kd in NOISE_KINDS[1:]])
+    w4 = [list(w) for n in range(1, 5) for w in itertools.product(["I", "H", "P", "X", "Y", "Z"], repeat=n)]
+    S.map("simplify_local_clifford.repeat_and_frames", [w4[k:k + 32] for k in range(0, len(w4), 32)])
+    fr = [["member", i, k, dt, od] for i in range(24) for k in range(4) for dt, od in (("complex", "C"), ("complex", "F"), ("float", "C"), ("int", "C"))]
+    fr += [["rot", i, k, "complex", "C"] for i in (0, 7, 13, 22) for k in range(3)]
+    S.map("find_local_clifford_by_matrix.argument_frames", fr)
     return S
